@@ -144,7 +144,8 @@ func judgeNotes(o *SyncObs) (string, string) {
 			return "changed-not-reported:" + cls, fmt.Sprintf("%s changed (%s -> %s) but no add/modify was reported", a.Path, identity(b), identity(&a))
 		case n > 1:
 			return "reported-twice", fmt.Sprintf("%s reported %d times", a.Path, n)
-		case !changed && n > 0 && !exception:
+		case !changed && n > 0 && !exception && !o.Merge:
+			// (merge mode does not look at the old destination: everything the source holds is applied and reported)
 			return "unchanged-reported", fmt.Sprintf("%s did not change but was reported", a.Path)
 		}
 	}
@@ -359,6 +360,9 @@ func c05Cases(tier string) []c05Case {
 			for _, d := range dl {
 				c := SyncCase{Src: s, Dst: d}
 				out = append(out, c05Case{Sync: &c})
+				// merge mode: nothing of the old destination is removed, everything the source changes is reported
+				cm := SyncCase{Src: s, Dst: d, Merge: true}
+				out = append(out, c05Case{Sync: &cm})
 			}
 		}
 	}
@@ -422,6 +426,8 @@ func c05Cases(tier string) []c05Case {
 			}
 			c := SyncCase{Src: fsmodel.Tree{s}, Dst: fsmodel.Tree{d}, Mem: s.Kind == fsmodel.Char}
 			out = append(out, c05Case{Sync: &c})
+			cm := SyncCase{Src: fsmodel.Tree{s}, Dst: fsmodel.Tree{d}, Mem: s.Kind == fsmodel.Char, Merge: true}
+			out = append(out, c05Case{Sync: &cm})
 		}
 	}
 	return out
